@@ -475,8 +475,8 @@ func TestWitnessCommitment(t *testing.T) {
 var recWeight = ev.New("C13", "weight",
 	"transactions with 0..300 inputs/outputs, script and witness-item lengths and witness-item counts drawn around the CompactSize boundaries "+
 		"(0, 1, 252, 253, 254, 65535, 65536) and blocks of 0..300 such transactions (252/253 boundary); oracle = 3*stripped+total with an own serialiser "+
-		"(BIP141/BIP144); non-trivial = a CompactSize boundary is crossed or witness data present; distinct by serialisation",
-	"tx-plain", "tx-witness", "tx-varint-boundary", "block", "block-253+")
+		"(BIP141/BIP144), also for a transaction weighed through one btcutil.Tx wrapper before and after its witness is attached; non-trivial = a CompactSize boundary is crossed or witness data present; distinct by serialisation",
+	"tx-plain", "tx-witness", "tx-varint-boundary", "tx-weighed-before-and-after-witness", "block", "block-253+")
 
 func genLen(t *rapid.T, label string) int {
 	return rapid.OneOf(
@@ -580,6 +580,28 @@ func TestWeight(t *testing.T) {
 			if want := refTxWeight(tx); got != want {
 				t.Fatalf("GetTransactionWeight = %d, definition 3*%d+%d = %d; tx in=%d out=%d witness=%v",
 					got, len(refSerializeTx(tx, false)), len(ser), want, len(tx.TxIn), len(tx.TxOut), refHasWitness(tx))
+			}
+			// the life of a transaction that is built, weighed for its fee, signed and weighed again through
+			// the same wrapper (as a coinbase is before and after it gets its witness commitment): the weight
+			// is that of the transaction as it is at the time of the call
+			if refHasWitness(tx) && rapid.Bool().Draw(t, "sameWrapper") {
+				recWeight.Count("tx-weighed-before-and-after-witness", 1)
+				unsigned := tx.Copy()
+				for _, ti := range unsigned.TxIn {
+					ti.Witness = nil
+				}
+				w := btcutil.NewTx(unsigned)
+				_ = w.HasWitness()
+				if got, want := blockchain.GetTransactionWeight(w), refTxWeight(unsigned); got != want {
+					t.Fatalf("GetTransactionWeight of the unsigned transaction = %d, definition %d", got, want)
+				}
+				for i, ti := range unsigned.TxIn {
+					ti.Witness = tx.TxIn[i].Witness
+				}
+				if got, want := blockchain.GetTransactionWeight(w), refTxWeight(tx); got != want {
+					t.Fatalf("GetTransactionWeight after the witness was attached (same btcutil.Tx, weighed before) = %d, definition %d (a fresh wrapper gives %d)",
+						got, want, blockchain.GetTransactionWeight(btcutil.NewTx(unsigned)))
+				}
 			}
 			return
 		}
